@@ -263,7 +263,15 @@ def run_case(case, tier="quick", seed=0, do_replay=True):
                     r, _ = ctx.check(core.BoolConst(True), kind="vacuity", timeout=20000)
                     res["vacuity"] = "sat" if r != "unsat" else "unsat"
                 continue
-            refd = case.ref(I, ops, mk)
+            try:
+                refd = case.ref(I, ops, mk)
+            except (ValueError, TypeError, IndexError, KeyError, ZeroDivisionError, AttributeError) as e:
+                # code-vs-code oracles call the library too: an exception that comes out of gbasis itself on the
+                # oracle side means one of two equivalent calls raises (decided by the replay on the real code)
+                if not _raised_in_library(e):
+                    raise
+                tb = traceback.format_exception(type(e), e, e.__traceback__)
+                refd = {"__raises__": "oracle-side:" + type(e).__name__, "__trace__": "".join(tb[-3:])[-400:]}
             if "__raises__" in out or "__raises__" in refd:
                 # outcome-kind obligation: code raised <=> oracle says it must raise
                 res["obligations"] += 1
@@ -272,7 +280,7 @@ def run_case(case, tier="quick", seed=0, do_replay=True):
                 if ok:
                     res["discharged"] += 1
                 else:
-                    _handle_sat(case, ctx, res, mk, ("__raises__", ()), "", None, f"code:{a} oracle:{b} {out.get('__trace__', '')}", do_replay)
+                    _handle_sat(case, ctx, res, mk, ("__raises__", ()), "", None, f"code:{a} oracle:{b} {out.get('__trace__', '')} {refd.get('__trace__', '')}", do_replay)
                 continue
             fo, fr = flatten(out), dict(flatten(refd))
             for key, v in fo:
@@ -307,10 +315,12 @@ def run_case(case, tier="quick", seed=0, do_replay=True):
                 res["vacuity"] = _vacuity(case, ctx, fo, fr)
         ctx.pc = []
         # canary: reference evaluated on perturbed inputs must be refuted with a witness
-        if getattr(case, "run_canary", True) and paths and paths[0][1][0] == "ret":
+        found = bool(res["violations"] or res["known"])
+        if getattr(case, "run_canary", True) and paths and paths[0][1][0] == "ret" and not found:
             res["canary"] = _canary(case, ctx, I, mk, ops, paths)
         # conformance of the encoding with the real (unpatched) float code
-        res["conformance"] = _conformance(case, ctx, mk, paths)
+        if not found:
+            res["conformance"] = _conformance(case, ctx, mk, paths)
         # soundness obligations of the encoding
         res["den_bases"] = _check_den_bases(ctx, res)
         res["crosscheck"] = crosscheck_cvc5(ctx, res)
@@ -819,9 +829,35 @@ def match_known(prop, cid, key):
 # driver
 
 
+def _raised_in_library(e):
+    tb = e.__traceback__
+    last = None
+    while tb is not None:
+        last = tb
+        tb = tb.tb_next
+    fn = last.tb_frame.f_code.co_filename if last is not None else ""
+    return os.sep + "gbasis" + os.sep in fn and (fn.startswith(REPO) or "/gbasis/" in fn)
+
+
+class CaseTimeout(BaseException):
+    pass
+
+
+def _alarm(signum, frame):
+    raise CaseTimeout()
+
+
 def _worker(args):
+    import signal
+
     modname, clsname, params, tier, seed = args
     sys.setrecursionlimit(20000)
+    budget = int(os.environ.get("VERIF_CASE_BUDGET", "600" if tier == "quick" else "3600"))
+    try:
+        signal.signal(signal.SIGALRM, _alarm)
+        signal.alarm(budget)
+    except (ValueError, AttributeError):
+        pass
     mod = importlib.import_module(modname)
     case = getattr(mod, clsname)(**params)
     try:
@@ -829,7 +865,16 @@ def _worker(args):
         r = dict(run_case(case, tier=tier, seed=seed))
         if os.environ.get("VERIF_VERBOSE"):
             print(f"[done {time.time() - t0:7.1f}s] {case.cid} obl={r.get('obligations')} ok={r.get('discharged')}", file=sys.stderr, flush=True)
+        try:
+            signal.alarm(0)
+        except (ValueError, AttributeError):
+            pass
         return r
+    except CaseTimeout:
+        shim.uninstall()
+        return {"cid": case.cid, "prop": case.prop, "obligations": 1, "discharged": 0, "violations": [], "known": [], "samples": [],
+                "harness_errors": [], "solver_s": 0, "queries": 0, "wall_s": budget,
+                "inconclusive": [{"key": "*", "why": f"case exceeded its wall-time budget of {budget} s (no verdict)"}]}
     except BaseException as e:  # noqa: BLE001
         return {"cid": case.cid, "prop": case.prop, "harness_errors": [f"worker crashed: {type(e).__name__}: {e}"],
                 "obligations": 0, "discharged": 0, "inconclusive": [], "violations": [], "known": [], "samples": [],
@@ -970,5 +1015,11 @@ def finish_property(prop, results, tier, seed, encoded, bounds, assumptions, t0,
     if violations:
         return 1
     if herrs or (obligations > 0 and discharged + len(known) == 0):
+        return 3
+    budget_cases = sum(1 for i in inconclusive if "wall-time budget" in str(i.get("why")))
+    if obligations > 0 and (len(inconclusive) + extra.get("skipped", 0) > 0.25 * obligations or budget_cases > 0.25 * max(len(results), 1)):
+        # the encoding no longer decides the property on this tree: neither "held" nor a violation
+        print(f"HARNESS-ERROR property={prop} too many undecided obligations ({len(inconclusive)} of {obligations}; "
+              f"{budget_cases} cases over their time budget): no verdict")
         return 3
     return 0
